@@ -28,12 +28,12 @@ def brute_extremes(m, pos, neg, ep, en, sc, ec):
 
 
 def _low_targets():
-    return st.one_of(st.sampled_from([0.0, -0.0, -1e-300, -1e-9, -0.1, -1.0, -1e6]),
+    return st.one_of(st.sampled_from([0.0, -0.0, -1e-300, -1e-9, -0.1, -1.0, -1e6, -1e19, -1e30, -1e300]),
                      st.floats(min_value=-1e3, max_value=0.0, allow_nan=False))
 
 
 def _high_targets():
-    return st.one_of(st.sampled_from([1.0, 1.0 + 2.3e-16, 1 + 1e-9, 1.1, 2.0, 1e6]),
+    return st.one_of(st.sampled_from([1.0, 1.0 + 2.3e-16, 1 + 1e-9, 1.1, 2.0, 1e6, 1e19, 1e30, 1e300]),
                      st.floats(min_value=1.0, max_value=1e3, allow_nan=False))
 
 
